@@ -6,7 +6,7 @@
    floor).  The harness runs the bit-exact IEEE binary64 instance `fops` against the real C code. *)
 From Coq Require Import List ZArith Lia.
 Import ListNotations.
-From V Require Import Base.U32 Gen.RsConsts C09.Model C09.Proofs.
+From V Require Import Base.U32 Gen.RsConsts C09.Model C09.Proofs C09.Fb13.
 Local Open Scope Z_scope.
 
 (* Range.  For every configuration in which a roller shutter has no tilting time, from every state whose position is
@@ -101,6 +101,37 @@ Theorem C09_accounting_fb_change_position_refuted :
 Proof. exact C09_fb_change_position_tilt_refuted_lem. Qed.
 Print Assumptions C09_accounting_fb_change_position_refuted.
 
+(* Accounting, facade blinds of tilt types 1 (tilting keeps the position) and 3 (tilting only when closed); the tilting time
+   Tt is part of the travel time (Tp = full - Tt).  Outside the two listed deviation classes of these modes:
+     - every callback interval is at least one tilt unit, Tt <= 10000 dt (excludes fb-slow-tilt-starved);
+     - intervals are at most tau: the lag at the tilt/position hand-over is one interval (fb-handover-lag: inside the stated
+       tolerance for tau <= 30 ms, outside it for coarser callbacks).
+   From known position and tilt (type 3: slats open whenever the blind is not closed) and a carry below one unit, after
+   callbacks ds with the output of direction `up` energised: the time converted into tilt plus the time converted into
+   position equals the time run minus the carry, up to 2 us per callback — nothing lost, nothing counted twice; tilt and
+   position move in their physical order (tilt first; type 3 going down: position first, the slats turn at the closed
+   position); the carry is below one unit of the moving quantity, plus one interval right after the hand-over. *)
+Theorem C09_accounting_fb13 : forall o, fp_ok o -> forall c boot up tau s ds,
+  keeps_position c = true -> tilt_supported c = true ->
+  let Tt := tilt_ms c * 1000 in let Tp := full_of c up * 1000 - Tt in
+  20000 <= Tt -> 20000 <= Tp -> full_of c up * 1000 < 4294967296 -> 0 <= tau ->
+  synced boot s -> known (pos s) = true -> known (tilt s) = true -> consistent3 c (pos s) (tilt s) ->
+  0 <= carry_of up s -> 10000 * carry_of up s < Z.max Tt Tp + 10000 ->
+  Forall (fun d => 0 <= d <= tau /\ Tt <= 10000 * d) ds -> carry_of up s + sumz ds < 4294967296 ->
+  motor_on o c boot up s ds ->
+  let s' := run_cbs o c boot s ds in
+  let e := carry_of up s + sumz ds in
+  let n := Z.of_nat (length ds) in
+  let mt := remaining up (tilt s) - remaining up (tilt s') in
+  let mp := remaining up (pos s) - remaining up (pos s') in
+  known (pos s') = true /\ known (tilt s') = true /\ consistent3 c (pos s') (tilt s') /\
+  0 <= mt /\ 0 <= mp /\ 0 <= remaining up (tilt s') /\ 0 <= remaining up (pos s') /\ 0 <= carry_of up s' <= e /\
+  10000 * (e - carry_of up s') <= mt * Tt + mp * Tp <= 10000 * (e - carry_of up s') + 20000 * n /\
+  (if tilt_second c up then 0 < mt -> remaining up (pos s') = 0 else 0 < mp -> remaining up (tilt s') = 0) /\
+  (0 < remaining up (tilt s') \/ 0 < remaining up (pos s') -> 10000 * carry_of up s' < Z.max Tt Tp + 10000 + 10000 * tau).
+Proof. exact C09_accounting_fb13_thm. Qed.
+Print Assumptions C09_accounting_fb13.
+
 (* ---------- the hypotheses are satisfiable ---------- *)
 (* exact integer arithmetic is one instance of the floating-point facts *)
 Definition zops : fpops := {|
@@ -120,4 +151,14 @@ Example accounting_example :
   let s0 := step fops c 1 (timer_cb fops c 1 (init c 3100 0 250000) 10000) (SetDir 1) in
   synced 1 s0 /\ known (pos s0) = true /\ motor_on fops c 1 false s0 (repeat 10000 120) /\
   pos (run_cbs fops c 1 s0 (repeat 10000 120)) = 3100 + 10000 * 1200000 / 17300000.
+Proof. vm_compute. repeat split; reflexivity. Qed.
+
+(* a concrete run meeting the hypotheses of C09_accounting_fb13 on the float instance: type 1, 17.3 s travel incl. 1.73 s tilting,
+   250 callbacks of 10 ms going down from (31 %, 20 %): the slats close first (1.384 s), then the position moves *)
+Example accounting_fb13_example :
+  let c := {| full_open := 17300; full_close := 17300; tilt_ms := 1730; tilt_type := 1; margin := 110 |} in
+  let s0 := step fops c 1 (timer_cb fops c 1 (init c 3200 2100 250000) 10000) (SetDir 1) in
+  keeps_position c = true /\ tilt_supported c = true /\ synced 1 s0 /\ known (pos s0) = true /\ known (tilt s0) = true /\
+  carry_of false s0 = 0 /\ motor_on fops c 1 false s0 (repeat 10000 250) /\
+  tilt (run_cbs fops c 1 s0 (repeat 10000 250)) = 10100 /\ 3200 < pos (run_cbs fops c 1 s0 (repeat 10000 250)) < 3200 + 10000 * 2500000 / 15570000 .
 Proof. vm_compute. repeat split; reflexivity. Qed.
